@@ -9,6 +9,8 @@ SCHED_NOTE = ('Lean kernel + axioms propext/Classical.choice/Quot.sound; hand-wr
 PROD_NOTE = ('Lean kernel + axioms propext/Classical.choice/Quot.sound; hand-written model (lean/EaModel/Producer.lean, Replace.lean, Zone.lean, Filter.lean) '
              'tied to /repo by the correspondence run of this check (real producers built through TriggerBuilder/FilterBuilder vs. the native Lean driver on the same '
              'queries, in the zones of /usr/share/zoneinfo exported as transition tables); whenever, the tz database and random.uniform are modelled, not verified')
+TM_NOTE = ('Lean kernel + axioms propext/Classical.choice/Quot.sound; hand-written model (lean/EaModel/Tasks.lean) of the managers on an asyncio ready-queue model, '
+           'tied to /repo by running the real managers on a real asyncio loop with instrumented coroutines on the same operation lists; asyncio itself is modelled, not verified')
 CHECKS = {
  'C01': ('proof', 'Theorems (for every finite history of operations, every environment): queue invariant of every reachable state '
          '(only RUNNING jobs queued, no duplicates, sorted, RUNNING <-> run time set) and never-early (every recorded execution has '
@@ -64,6 +66,17 @@ CHECKS = {
          'unbounded while loop in the code (known finding F7a; theorem interval_unsat_never_returns: no fuel suffices). The check runs '
          'unsatisfiable filters at every nesting level under a watchdog.', '8 C16', PROD_NOTE,
          'Lean 4 totality + bound lemmas + watchdog correspondence'),
+ 'C11': ('proof', 'Theorems for every finite history of operations on a sequential manager (submissions from outside, from inside the '
+         'running task and from a listener woken by the finishing task; completions, failures, cancellations; all bounds, policies, keys): '
+         'at most one task exists whose done callback has not run and it is self.task (invariant over the asyncio ready-queue model); '
+         'coroutines start from the head of the queue; de-duplication keeps only the newest per key. Correspondence on a real asyncio '
+         'loop with instrumented coroutines; oracle: one at a time, start order, victims, conservation.', '8 C11', TM_NOTE,
+         'Lean 4 invariant proof over an asyncio ready-queue model + differential correspondence on a real loop'),
+ 'C12': ('proof', 'Theorems: the limiting parallel manager never tracks more than its limit in any reachable state; skip closes the new '
+         'coroutine and changes nothing else; cancel_first / cancel_last cancel and untrack the oldest / newest task before the new one '
+         'is created; the done callback frees the slot; the unbounded manager creates and tracks a task for every coroutine. '
+         'Correspondence incl. garbage collection of weakly held tasks.', '8 C12', TM_NOTE,
+         'Lean 4 invariant proof + differential correspondence on a real loop'),
 }
 def main():
     from registry import PROPS
